@@ -162,10 +162,15 @@ func (s *subprocessor) beforeMessageBuiltStage(ctx context.Context) (
 	}
 
 	if !localShardWasBroadcast {
-		// We pick a unit at random to fill the common data between the two. All of these values
-		// have already been verified up top.
-		// todo(rdr): there is an issue where unit in 0 is not guaranteed to be non-nil
-		unit := unitsReceived[0]
+		// We pick any received unit to fill the common data between the two. All of these values
+		// have already been verified up top. Shard 0 is not guaranteed to be among them.
+		var unit *Unit
+		for _, received := range unitsReceived {
+			if received != nil {
+				unit = received
+				break
+			}
+		}
 		localUnit := Unit{
 			CommitteeID: unit.CommitteeID,
 			Publisher:   unit.Publisher,
